@@ -59,8 +59,8 @@ def generate(rng, focus, tier="quick"):
     start = timegen.start_instant(rng)
     cfg = {
         "assets": assets, "long_only": long_only,
-        "cash_buffer": rng.choice([0.0, 0.01, 0.05, 0.1, 0.5, 1.0]),
-        "leverage": rng.choice([0.5, 1.0, 1.5, 2.0, 5.0]),
+        "cash_buffer": rng.choice([0.0, 0, 0.01, 0.05, 0.1, 0.5, 1.0, 1]),
+        "leverage": rng.choice([0.5, 1.0, 1, 1.5, 2.0, 2, 5.0]),
         "optimiser": ("equal" if rng.random() < (0.5 if f == "C19" else 0.25) else "fixed"),
         "scale": rng.choice([1.0, 1.0, 0.5, 2.0, 0.3]),
         "fee": fee, "initial_cash": rng.choice([1e3, 1e4, 1e5, 1e6, 1e7, 54321.98]),
